@@ -1080,4 +1080,41 @@ theorem splitArgs_getElem? (n : Nat) (args : List Arg) (i : Nat) (hi : i < n) :
     (splitArgs n args)[i]? = some (args.map (Arg.at n i)) := by
   simp [splitArgs, hi]
 
+/-! ### `register_agent` called again on a registered agent -/
+
+theorem byTypeAdd_noop (bt : List (Ty × List Aid)) (ty : Ty) (a : Aid) (s : List Aid) (h : bt.lookup ty = some s)
+    (ha : a ∈ s) : byTypeAdd bt ty a = bt := by
+  induction bt with
+  | nil => simp [List.lookup] at h
+  | cons p bt ih =>
+    obtain ⟨t, s0⟩ := p
+    unfold byTypeAdd
+    by_cases hts : t = ty
+    · subst hts
+      simp only [List.lookup, beq_self_eq_true] at h
+      simp only [if_true]
+      have : s0 = s := by simpa using h
+      subst this
+      rw [addKey_of_mem ha]
+    · have hne : (ty == t) = false := by simp; exact fun e => hts e.symm
+      simp only [hts, if_false]
+      rw [ih (by simpa [List.lookup, hne] using h)]
+
+theorem registerAgain_noop {R} (hR : OrdRel R) {w : World} (h : WInv R w) (a : Aid) (hreg : registered w a = true) :
+    registerAgain w a = w := by
+  rw [registered_iff] at hreg
+  obtain ⟨i, r, hi, hr, ha⟩ := hreg
+  have hinv := h.regs i.model r hr
+  have hall : a ∈ r.all := (hR.perm hinv.all).mem_iff.mpr ha
+  have hty : tyOfI w.info a = i.ty := by simp [tyOfI, hi]
+  obtain ⟨s, hs, hmem⟩ := lookup_of_mem_keys (hinv.bt.cover a ha)
+  have has : a ∈ s := by
+    have hg := hinv.bt.groups (tyOfI w.info a, s) hmem
+    apply (hR.perm hg).mem_iff.mpr
+    simp [ha]
+  rw [hty] at hs
+  have hreg' : r.register a i.ty = r := by
+    simp only [Reg.register, addKey_of_mem ha, addKey_of_mem hall, byTypeAdd_noop _ _ _ _ hs has]
+  simp only [registerAgain, hi, hr, hreg', set_getElem?_self hr]
+
 end Mesa.Agents
